@@ -44,7 +44,7 @@ def RunSpec.ofCase (c : Case) : RunSpec := Id.run do
     | "act", id :: ops => r := { r with acts := setAt r.acts (id.toNat?.getD 0) (ops.filterMap parseOp) [] }
     | "eact", id :: ops => r := { r with eacts := setAt r.eacts (id.toNat?.getD 0) (ops.filterMap parseOp) [] }
     | "eofact", ops => r := { r with eofDefault := ops.filterMap parseOp }
-    | "wrap", ws => r := { r with wraps := ws.map fun w => if w == "-" then none else if w == "p" then some 1000000 else w.toNat? }
+    | "wrap", ws => r := { r with wraps := ws.map fun w => if w == "-" then none else if w == "p" then some 1000000 else if w.startsWith "s" then (w.drop 1).toNat?.map (· + 2000000) else w.toNat? }
     | "yylmax", v :: _ => r := { r with cfg := { r.cfg with yylmax := v.toNat?.getD 0 } }
     | "chain", ws => r := { r with cfg := { r.cfg with actionOf := (ws.filterMap String.toNat?).toArray } }
     | "bolneeded", v :: _ => r := { r with cfg := { r.cfg with bolNeeded := v == "1" } }
